@@ -12,14 +12,14 @@ Require Import Grits.Base Grits.STypes Grits.Forms Grits.TcDeps Grits.Tc Grits.T
                Grits.proofs.EquivarianceTypes Grits.proofs.TypePerm Grits.proofs.VerdictInvariant
                Grits.spec.SynOk Grits.proofs.TypingBisim Grits.proofs.BisimInvariance.
 
-Theorem C14_typing_equivariant_partial : forall teq r r' rf rf' p, bijection r r' -> bijection rf rf' ->
+Theorem C14_typing_equivariant_partial : forall teq r r' rf rf' p, bijection r r' -> bijection rf rf' -> r "" = "" ->
   (ProgOK teq p <-> ProgOK teq (ren_program r rf p)).
 Proof. exact typing_equivariant. Qed.
 
 Theorem C14_typing_perm_partial : forall teq p p', decl_perm p p' -> (ProgOK teq p <-> ProgOK teq p').
 Proof. exact typing_perm_iff. Qed.
 
-Theorem C14_verdict_invariant_partial : forall r r' rf rf' p, bijection r r' -> bijection rf rf' ->
+Theorem C14_verdict_invariant_partial : forall r r' rf rf' p, bijection r r' -> bijection rf rf' -> r "" = "" ->
   (accepts p <-> accepts (ren_program r rf p)).
 Proof. exact verdict_invariant_partial. Qed.
 
